@@ -114,7 +114,7 @@ def run(tier, seed):
             if p.returncode != 0:
                 raise common.Infra(f"vdrive c15 exited {p.returncode}: {p.stderr.decode(errors='replace')[-2000:]}")
             got = 0
-            for l in p.stdout.decode().splitlines():
+            for l in p.stdout.decode().split("\n"):
                 if l.strip():
                     e = json.loads(l)
                     evs[e["id"]] = e
